@@ -3,10 +3,12 @@ package main
 import (
 	"encoding/json"
 	"fmt"
+	"golang.org/x/tools/go/ssa"
 	"os"
 	"os/exec"
 	"path/filepath"
 	"regexp"
+	"sort"
 	"strings"
 )
 
@@ -270,5 +272,82 @@ func cmdSelftest(args []string) int {
 	if bad > 0 {
 		return 1
 	}
+	return 0
+}
+
+// cmdSweep: zero-annotation safety sweep (exploration aid, not part of any check): every function of the repository
+// that has no contract is executed with an empty contract and trivially true loop invariants; failing index / slice /
+// type-assertion / division / make-size / close obligations are listed as CANDIDATES. A candidate means "needs a
+// contract or is a defect": nothing here is reported as a violation.
+func cmdSweep(args []string) int {
+	e, err := LoadEngine("/repo", repoPatterns(), filepath.Join(verifDir, "prelude"))
+	if err != nil {
+		fmt.Println(err)
+		return 2
+	}
+	filter := ""
+	if len(args) > 0 {
+		filter = args[0]
+	}
+	var fns []*ssa.Function
+	for fn := range e.allFuncs {
+		if !e.inRepo(fn) || len(fn.Blocks) == 0 || fn.Synthetic != "" {
+			continue
+		}
+		if strings.HasSuffix(e.prog.Fset.Position(fn.Pos()).Filename, "_test.go") {
+			continue
+		}
+		if filter != "" && !strings.Contains(fn.String(), filter) {
+			continue
+		}
+		if e.contractFor(fn) != nil {
+			continue
+		}
+		fns = append(fns, fn)
+	}
+	sort.Slice(fns, func(i, j int) bool { return fns[i].String() < fns[j].String() })
+	kinds := map[string]bool{"safety.index": true, "safety.slice": true, "safety.typeassert": true, "safety.div": true, "safety.makesize": true, "safety.close": true, "safety.shift": true, "safety.nilmap": true}
+	var obls []*Obligation
+	for _, fn := range fns {
+		pk := fnPkgPath(fn)
+		key := relName(fn)
+		synth := &Contract{Kind: "func", Pkg: pk, Key: key, Loops: map[int]*LoopSpec{}, Flags: map[string]string{"safety-close": "true"}, Model: "int", Props: []string{"sweep"}}
+		for _, p := range fn.Params {
+			synth.Params = append(synth.Params, ParamDecl{Name: p.Name()})
+		}
+		for i := 0; i < fn.Signature.Results().Len(); i++ {
+			synth.Results = append(synth.Results, ParamDecl{Name: "r" + string(rune('0'+i))})
+		}
+		u := newUnit(pk + "::sweep/" + key)
+		fc := e.newFuncCtx(u, fn, synth, pk)
+		fc.autoLoopInv = true
+		fc.props = []string{"sweep"}
+		short := shortPkg(pk) + "." + key
+		func() {
+			defer func() {
+				if r := recover(); r != nil {
+					if _, ok := r.(unsupportedErr); ok {
+						return
+					}
+					fmt.Printf("sweep: %s: internal error %v\n", short, r)
+				}
+			}()
+			fc.verifyBody(short)
+		}()
+		for _, o := range u.Obls {
+			if kinds[o.Kind] && !o.Structural {
+				obls = append(obls, o)
+			}
+		}
+	}
+	runObligations(obls, RunOpts{Tier: "quick", TimeoutMs: 5000, Workers: 8})
+	n := 0
+	for _, o := range obls {
+		if st := oblStatus(o); st != "discharged" {
+			n++
+			fmt.Printf("CANDIDATE %-10s %s [%s] %s\n", st, o.Name, o.Pos, o.Desc)
+		}
+	}
+	fmt.Printf("sweep: %d functions without contract, %d safety obligations of the selected kinds, %d candidates\n", len(fns), len(obls), n)
 	return 0
 }
